@@ -139,9 +139,10 @@ def check_layout(sc, o, d, N, kind, fl, op, xs, pts, blocks, n, maps, roundtrip)
                 sc.uf_node_eq('waypoint %d[%d] == x[%d]' % (i, dd, off + dd), out, g.varid[xs[off + dd]])
             else:
                 m0, m1, b = V('sm0'), V('sm1'), V('smb')
+                gi = E.mul(m0, E.add(R.VONE, E.scale(V('smq'), Fraction(i))))     # index-dependent gain of the user map
                 spec = b
                 if dd < df:
-                    spec = E.add(spec, E.mul(m0, V(xs[off + dd])))
+                    spec = E.add(spec, E.mul(gi, V(xs[off + dd])))
                 if dd >= 1 and dd - 1 < df:
                     spec = E.add(spec, E.mul(m1, V(xs[off + dd - 1])))
                 sc.real_eq('waypoint %d[%d] == toPhysical(x[%d..%d))' % (i, dd, off, off + df), out, spec)
@@ -192,7 +193,7 @@ def run_task(t):
                 for h in pr.h:
                     sc.assume.append(E.var(h) > 1 if region == 'hi' else E.var(h) <= 1)
             else:
-                sc.assume += [E.var('tmk') > 0, E.var('sm0') != 0] + [E.var(h) > E.var('tmc') for h in pr.h]
+                sc.assume += [E.var('tmk') > 0, E.var('sm0') != 0, E.var('smq') > 0] + [E.var(h) > E.var('tmc') for h in pr.h]
             check_layout(sc, o, d, N, kind, fl, op, xs, pts, blocks, n, maps, True)
             # the reference-duration region forces the recorded branch of toTau/toTime in the round trip (so the two regions cover h > 0)
             # the branch tests of the time map: comparisons of a quantity derived from a reference duration with a CONSTANT (T > 1, tau > 0, t < 1e-3)
